@@ -532,3 +532,51 @@ def _differences_trees(trees, extra_symtab, genTexts, textFilter, aspects, modul
             except Exception as exc:
                 bad.append('compare: %s::%s: %s %s' % (mod, key, exc.__class__.__name__, str(exc)[:160]))
     return bad
+
+
+def _plain(x):
+    """JSON's view of a context: dicts with string keys, lists, scalars"""
+    if isinstance(x, dict):
+        return dict((str(k), _plain(v)) for k, v in x.items())
+    if isinstance(x, (list, tuple)):
+        return [_plain(v) for v in x]
+    return x
+
+
+def json_document_differences(trees, extra_symtab, genTexts, textFilter, ctxs):
+    """render the JSON documents of `trees` with the REAL template and compare json.loads(text) with the captured contexts"""
+    import copy
+    with tok._untraced():
+        j = _real_jinja()
+        old = _jsondoc.jinja2
+        _jsondoc.jinja2 = j
+        bad = []
+        try:
+            trees = copy.deepcopy(list(trees))
+            sg = _symtable.SymtableCodeGen()
+            symtab = dict(copy.deepcopy(extra_symtab) if extra_symtab else {})
+            for tree in trees:
+                mi, st = sg.genCode(tree, symtab)
+                symtab[mi.name] = st
+            kw = dict(genTexts=genTexts)
+            if textFilter is not None:
+                kw['textFilter'] = textFilter
+            jg = _jsondoc.JsonCodeGen()
+            for tree in trees:
+                try:
+                    mi, text = jg.genCode(tree, symtab, **kw)
+                except error.PySmiError as exc:
+                    bad.append('json: %s: real rendering failed: %s' % (tree[0], str(exc)[:160]))
+                    continue
+                try:
+                    doc = json.loads(text)
+                except ValueError as exc:
+                    bad.append('json: %s: the rendered text is not valid JSON: %s' % (tree[0], exc))
+                    continue
+                want = _plain(ctxs.get(mi.name))
+                if doc != want:
+                    keys = sorted(set(doc) ^ set(want or {})) or [k for k in doc if doc[k] != (want or {}).get(k)]
+                    bad.append('json: %s: rendered document differs from the context handed to the template at %s' % (mi.name, keys[:4]))
+        finally:
+            _jsondoc.jinja2 = old
+        return bad
